@@ -482,6 +482,7 @@ pub fn gen_msg_program(id: &str, tape: Vec<u32>, opts: &GenOpts) -> Program {
             entry_points: true,
             query_err_param,
             lifetime: false,
+            flip_attr_order: false,
         },
         interfaces,
     }
@@ -696,6 +697,7 @@ pub fn gen_reply_program(id: &str, tape: Vec<u32>, opts: &GenOpts, any_order: bo
             entry_points: true,
             query_err_param: None,
             lifetime: false,
+            flip_attr_order: false,
         },
         interfaces: vec![],
     }
